@@ -128,6 +128,11 @@ func (x *Exec) call(c *ast.CallExpr, st *State) *Val {
 	}
 	key := x.e.funcKey(fn)
 	ctext := normSpace(x.e.srcText(c.Fun))
+	if x.hasAnchor("call", ctext, c) {
+		for i, a := range c.Args {
+			x.frame.extra[fmt.Sprintf("arg%d", i)] = x.expr(a, st)
+		}
+	}
 	x.anchors("call", ctext, c, st)
 	defer x.anchors("after-call", ctext, c, st)
 	// monitor operations and other built-in models
@@ -615,6 +620,20 @@ func (x *Exec) applyContract(ct *FuncContract, fn *types.Func, recv *Val, args [
 	var results []*Val
 	for i := 0; i < sig.Results().Len(); i++ {
 		results = append(results, x.freshVal("res."+fn.Name(), sig.Results().At(i).Type()))
+	}
+	// a callee may allocate: the allocation top can only grow across the call
+	hasRef := false
+	for _, r := range results {
+		if r.K == KInt && isRefType(r.T) || r.K == KStruct || r.K == KSlice || r.K == KTuple {
+			hasRef = true
+		}
+	}
+	if hasRef {
+		oldTop := x.heapGet(st, allocKey, SInt)
+		if st.heap[allocKey] == pre.heap[allocKey] {
+			st.heap[allocKey] = x.vc.Fresh("H."+allocKey, SInt)
+			x.vc.Fact("(>= " + st.heap[allocKey] + " " + oldTop + ")")
+		}
 	}
 	for _, r := range results {
 		x.wellFormed(st, r)
